@@ -18,10 +18,10 @@ def run(tier, seed):
                    sc.consts(["g1", "g2", "g3"], ["a", "b"], depth=4 if quick else 5, queries=False, profile="graphs"))
     # spec -> code: all behaviours of the multi-graph alphabet up to the bound, on both stores
     scripts = sc.generate(rep, "Gen_FimStore profile=graphs",
-                          sc.consts(["g1", "g2", "g3"], ["a", "b"], depth=4 if quick else 5, profile="graphs"))
+                          sc.consts(["g1", "g2", "g3"], ["a", "b"], depth=4, profile="graphs"))
     sc.run_and_validate(rep, scripts, VARIANTS if quick else VARIANTS_FMT, "tlc-generated multi-graph behaviours")
     for seed_name in ("pair", "tri"):
-        d = (3 if seed_name == "pair" else 2) if quick else 4
+        d = (3 if seed_name == "pair" else 2) if quick else 3
         sc.model_check(rep, "MC_FimStore profile=graphs seed=" + seed_name,
                        sc.consts(["g1", "g2", "g3"], ["a", "b"], depth=d, queries=False, profile="graphs", seed=seed_name))
         scripts = sc.generate(rep, "Gen_FimStore profile=graphs seed=" + seed_name,
@@ -34,6 +34,6 @@ def run(tier, seed):
          "ByClass": 1, "ByClassType": .3, "NodeExists": .5, "CheckUnique": .3}
     gen = sc.RandomStoreOps(rng, ["g1", "g2", "g3", "g4"], ["a", "b", "c"], ["K1", "K2"], ["r1", "r2"],
                             ["p", "Name"], ["s:v1", "s:v2", "i:7"], weights=w)
-    rs = [gen.script(50) for _ in range(120 if quick else 2500)]
+    rs = [gen.script(50) for _ in range(120 if quick else 1200)]
     sc.run_and_validate(rep, rs, VARIANTS_FMT, "random multi-graph interleavings")
     return rep
